@@ -613,12 +613,19 @@ type ShardCounts struct {
 	// UnusableDataShardCount is the number of parity shards that
 	// are unusable, i.e. missing or corrupt.
 	UnusableParityShardCount int
+
+	// MisplacedDataFileCount is the number of data files that
+	// have to be rewritten although all of their shards are
+	// usable, e.g. files that were swapped, gained or lost bytes,
+	// or are missing while their content exists under another
+	// name.
+	MisplacedDataFileCount int
 }
 
 // RepairNeeded returns whether repair is needed, i.e. whether
-// UnusableDataShardCount is non-zero.
+// UnusableDataShardCount or MisplacedDataFileCount is non-zero.
 func (fc ShardCounts) RepairNeeded() bool {
-	return fc.UnusableDataShardCount > 0
+	return fc.UnusableDataShardCount > 0 || fc.MisplacedDataFileCount > 0
 }
 
 // RepairPossible returns whether repair is possible i.e. whether
@@ -632,13 +639,20 @@ func (d *Decoder) ShardCounts() ShardCounts {
 	usableDataShardCount := 0
 	unusableDataShardCount := 0
 
+	misplacedDataFileCount := 0
+
 	for _, info := range d.fileIntegrityInfos {
+		allUsable := true
 		for _, shardInfo := range info.shardInfos {
 			if shardInfo.data == nil {
 				unusableDataShardCount++
+				allUsable = false
 			} else {
 				usableDataShardCount++
 			}
+		}
+		if allUsable && !info.ok(d.sliceByteCount) {
+			misplacedDataFileCount++
 		}
 	}
 
@@ -658,6 +672,7 @@ func (d *Decoder) ShardCounts() ShardCounts {
 		UnusableDataShardCount:   unusableDataShardCount,
 		UsableParityShardCount:   usableParityShardCount,
 		UnusableParityShardCount: unusableParityShardCount,
+		MisplacedDataFileCount:   misplacedDataFileCount,
 	}
 }
 
